@@ -2,13 +2,14 @@
 # seedcheck.sh <dir with patch.diff + *_test.go> <demo package dir rel. to repo, e.g. consensus> <ID> [tier] [more IDs...]
 # Confirms a seeded change: (1) suite passes with it, (2) demo fails with it, (3) demo passes without it, (4) our check(s) report a VIOLATION.
 set -u
+VHOME="$(cd "$(dirname "$0")/.." && pwd)"
 seed="$(realpath "$1")"; pkg="$2"; shift 2
 ids=(); tier=quick
 for a in "$@"; do case "$a" in quick|thorough) tier=$a;; *) ids+=("$a");; esac; done
 export GOFLAGS=-mod=mod GOPROXY=off GOSUMDB=off GOTOOLCHAIN=local
 scratch="/var/tmp/verif-seed.$$"; rm -rf "$scratch"; mkdir -p "$scratch/vroot"
 rsync -a --exclude .git /repo/ "$scratch/repo/"
-cleanup() { rm -rf "$scratch" /verif/.build/$(echo -n "$scratch/repo" | sha256sum | cut -c1-12); }
+cleanup() { rm -rf "$scratch" "$VHOME"/.build/$(echo -n "$scratch/repo" | sha256sum | cut -c1-12); }
 trap cleanup EXIT
 cd "$scratch/repo"
 if ! patch -p1 --quiet < "$seed/patch.diff"; then echo "SEED-PATCH-FAILED"; exit 3; fi
@@ -20,10 +21,10 @@ patch -R -p1 --quiet < "$seed/patch.diff"
 if go1.26 test -vet=off -count=1 "./$pkg/" > "$scratch/demo2.log" 2>&1; then echo "3. demo without change: PASS (expected)"; else echo "3. demo without change: FAIL (unexpected)"; tail -5 "$scratch/demo2.log"; fi
 rm -f "$pkg/$(basename "$demo")"
 patch -p1 --quiet < "$seed/patch.diff"
-cp /verif/known_findings.json "$scratch/vroot/"
-cd /verif
+cp "$VHOME"/known_findings.json "$scratch/vroot/"
+cd "$VHOME"
 for id in "${ids[@]}"; do
-  out=$(VERIF_REPO="$scratch/repo" VERIF_NO_EVIDENCE=1 VERIF_ROOT="$scratch/vroot" /verif/run.sh "$id" "$tier" 2>&1); rc=$?
+  out=$(VERIF_REPO="$scratch/repo" VERIF_NO_EVIDENCE=1 VERIF_ROOT="$scratch/vroot" "$VHOME"/run.sh "$id" "$tier" 2>&1); rc=$?
   if [ $rc -eq 1 ] && echo "$out" | grep -q "^VIOLATION property=$id"; then
     echo "4. $id $tier: CAUGHT  $(echo "$out" | grep -A1 '^VIOLATION' | grep signature | head -3 | tr '\n' ' ')"
   else
